@@ -86,8 +86,8 @@ def coq_term(c):
 
 
 def run_impl(cases, tag):
-    cin = os.path.join(WORK, f'c14_{tag}_in.json')
-    cout = os.path.join(WORK, f'c14_{tag}_out.json')
+    cin = os.path.join(WORK, f'c14_{tag}_{os.getpid()}_in.json')
+    cout = os.path.join(WORK, f'c14_{tag}_{os.getpid()}_out.json')
     json.dump(cases, open(cin, 'w'))
     env = dict(os.environ, PYTHONPATH=f"{REPO}:{os.path.join(VERIF, 'harness')}", PYTHONHASHSEED='0')
     env.pop('MPIRE_VERIF', None)
@@ -95,7 +95,13 @@ def run_impl(cases, tag):
                        stdout=subprocess.PIPE, stderr=subprocess.STDOUT, text=True, timeout=1800)
     if p.returncode != 0:
         raise RuntimeError("implementation harness failed: " + p.stdout[-1500:])
-    return json.load(open(cout))
+    out = json.load(open(cout))
+    for f in (cin, cout):
+        try:
+            os.remove(f)
+        except OSError:
+            pass
+    return out
 
 
 def shrink(case, fails):
